@@ -13,6 +13,7 @@ ASSUMPTIONS = list(_c07.ASSUMPTIONS) + ['a PoolError raised while a live worker 
 SHRINK = 'greedy'
 SHRINK_RUNS = 400
 TIME_BUDGET = _c07.TIME_BUDGET
+FUZZ = _c07.FUZZ
 REQUIRED = {
     'quick': {'death': 1000, 'all_dead': 100, 'retry_off': 1000, 'retry_on': 1000, 'return_results_off': 500, 'end:poolerror': 300,
               'refusing_enqueue_fn': 100, 'poisoned': 50, 'transient_enqueue_failure': 100, 'equal_inputs_and_death': 100},
